@@ -214,6 +214,11 @@ class C05(Plugin):
             check("bytes-" + enc, lambda: parse_obs(b, override_encoding=enc))
             check("BytesIO-" + enc, lambda: parse_obs(io.BytesIO(b), override_encoding=enc))
             check("nonseekable-" + enc, lambda: parse_obs(Sched(split(rng, b, 5)), override_encoding=enc))
+            # the other two certain sources: the transport layer, and a byte order mark
+            check("bytes-transport-" + enc, lambda: parse_obs(b, transport_encoding=enc))
+            if enc == "utf-8":
+                check("bytes-bom-utf-8", lambda: parse_obs(b"\xef\xbb\xbf" + b))
+                check("nonseekable-bom-utf-8", lambda: parse_obs(Sched([bytes([x]) for x in b"\xef\xbb\xbf" + b])))
         return [len(ref[1]), diffs]
 
     def oracle(self, case, out):
